@@ -137,3 +137,71 @@ Qed.
    counter as its first pid shares no process with it *)
 Definition pids_below (e : exec) : Prop :=
   (forall p, In p (procs e) -> p < pidc e) /\ (forall p, wk e p <> WNone -> p < pidc e).
+
+(* ------------------------------------------- deaths while the manager thread is busy *)
+(* The watch set of wait_result_broken_or_wakeup is rebuilt from ALL of _processes at every wait, dead or
+   alive: the sentinel test is level-triggered.  A worker that dies while the manager thread is not in
+   wait() (it is un-pickling a result, running callbacks, feeding the call queue) is therefore seen at
+   the next wait. *)
+Lemma feed_loop_procs : forall n e, procs (feed_loop n e) = procs e /\ wk (feed_loop n e) = wk e.
+Proof.
+  induction n; intros e; cbn [feed_loop]; [auto|].
+  destruct (Nat.leb _ _); [auto|]. destruct (work_ids e); [auto|].
+  destruct (memb _ _); [|pj; auto].
+  match goal with |- context [feed_loop n ?E] => destruct (IHn E) as [A B]; rewrite A, B end. cbn. auto.
+Qed.
+
+Lemma sentinel_level : forall e p, In p (procs e) -> wk e p = WDead -> sentinel_ready e = true.
+Proof.
+  intros e p Hin Hd. unfold sentinel_ready. apply existsb_exists. exists p. rewrite Hd. auto.
+Qed.
+
+Lemma busy_death_noticed : forall e p, In p (procs e) -> is_proc e p = true ->
+  sentinel_ready (worker_die p e) = true /\ sentinel_ready (manager_feed (worker_die p e)) = true.
+Proof.
+  intros e p Hin Hp. unfold worker_die. rewrite Hp.
+  set (e1 := set_faulted (set_wk e (upd (wk e) p WDead)) true).
+  assert (P1 : procs e1 = procs e) by (subst e1; pj; reflexivity).
+  assert (K1 : wk e1 p = WDead) by (subst e1; pj; apply upd_same).
+  clearbody e1. split; [apply (sentinel_level e1 p); [rewrite P1|]; assumption|].
+  unfold manager_feed. destruct (mgr e1); try (apply (sentinel_level e1 p); [rewrite P1|]; assumption).
+  unfold add_call_item_to_queue. destruct (feed_loop_procs (length (work_ids e1)) e1) as [A B].
+  destruct (is_crashed _).
+  - apply (sentinel_level _ p); [rewrite A, P1 | rewrite B]; assumption.
+  - apply (sentinel_level _ p); pj; [rewrite A, P1 | rewrite B]; assumption.
+Qed.
+
+(* ------------------------------------------- the submit window and the shutdown lock *)
+(* ProcessPoolExecutor.submit holds shutdown_lock from the broken/shutdown check to the registration of the
+   work item, and flag_as_broken takes the same lock: this is what makes [Submit] one atomic event of
+   the model.  The two halves, for the record: *)
+Definition submit_check (e : exec) : option fexc :=
+  match broken e with
+  | Some b => Some (PoolError b)
+  | None => if shutdown e then Some ShutdownExecutorError else None
+  end.
+
+Definition submit_register (e : exec) : exec :=
+  let id := nfut e in
+  ensure_running (mkExec (broken e) (shutdown e) (killw e) (maxw e) (qcap e) (procs e) (wk e) (pidc e)
+                         (upd (futs e) id FPending) (S id) (pending e ++ [id]) (work_ids e ++ [id])
+                         (running e) (callq e) (resq e) true (mgr e) (faulted e)).
+
+Lemma submit_split : forall e,
+  submit e = match submit_check e with Some x => (e, SRaise x) | None => (submit_register e, SOk (nfut e)) end.
+Proof. intros e. unfold submit, submit_check, submit_register. destruct (broken e); [|destruct (shutdown e)]; reflexivity. Qed.
+
+(* without the lock the interleaving  check ; terminate_broken ; register  is possible: it leaves a future
+   that nobody will ever complete although the manager has exited (contradicting exit_all_finished, which
+   holds of the locked code) *)
+Definition unlocked_trace_state : exec :=
+  let e := run (new_exec 2 5 0) [Submit; Feed; ManagerWake; Feed; Take 0; Result 0 1; ManagerWake; Feed; Die 1] in
+  match submit_check e with
+  | None => submit_register (step e ManagerWake)
+  | Some _ => e
+  end.
+
+Lemma unlocked_submit_loses_future :
+  mgr unlocked_trace_state = Exited /\ broken unlocked_trace_state = Some TerminatedWorkerError /\
+  futs unlocked_trace_state 1 = FPending /\ 1 < nfut unlocked_trace_state.
+Proof. vm_compute. repeat split; reflexivity || lia. Qed.
